@@ -29,6 +29,24 @@ const (
 	bPEND uint8 = 2 // a matching call executed; its outcome not yet tested
 )
 
+// condOverride: while the explorer takes the edges out of an If whose condition
+// is a boolean φ (ok := a && b; ...; if ok), the φ is resolved to the operand
+// selected on the path being explored; event automata read conditions through
+// ifCond and so see the operand's own comparison.
+type condRes struct {
+	v    ssa.Value
+	flip bool
+}
+
+var condOverride = map[*ssa.If]condRes{}
+
+func ifCond(iff *ssa.If, succ0 bool) (ssa.Value, bool) {
+	if r, ok := condOverride[iff]; ok {
+		return normCond(r.v, succ0 != r.flip)
+	}
+	return normCond(iff.Cond, succ0)
+}
+
 // ---------- ok(call): success edge of the error test of a matching call ----------
 
 type okEv struct {
@@ -159,7 +177,7 @@ func (e *okEv) Instr(st uint8, ins ssa.Instruction) uint8 {
 func (e *okEv) Edge(st uint8, from *ssa.BasicBlock, succ int) uint8 {
 	if st&bPEND != 0 {
 		if iff, ok := from.Instrs[len(from.Instrs)-1].(*ssa.If); ok {
-			cond, pos := normCond(iff.Cond, succ == 0)
+			cond, pos := ifCond(iff, succ == 0)
 			if e.boolMode {
 				if e.carriers[cond] && pos == e.want {
 					st |= bEST
@@ -247,6 +265,10 @@ func (g *guardEv) Edge(st uint8, from *ssa.BasicBlock, succ int) uint8 {
 		cond, pos := normCond(iff.Cond, succ == 0)
 		if g.match(cond, pos) {
 			st |= bEST
+		} else if _, resolved := condOverride[iff]; resolved {
+			if cond, pos = ifCond(iff, succ == 0); g.match(cond, pos) {
+				st |= bEST
+			}
 		}
 	}
 	return st
@@ -296,11 +318,13 @@ func (c *calledEv) Holds(st uint8) bool                           { return st&bE
 type pstate struct {
 	blk int
 	st  uint64
+	phi uint64 // per tracked boolean φ: 1 + index of the operand selected on this path (0: not yet executed)
 }
 
 type Exploration struct {
 	fn     *ssa.Function
 	evs    []Ev
+	phis   []*ssa.Phi // boolean φs that (transitively) feed an If condition
 	parent map[pstate]pstate
 	// states in which each instruction is reached (state before the instruction)
 	at map[ssa.Instruction][]uint64
@@ -327,8 +351,52 @@ func explore(P *Prog, fn *ssa.Function, init uint64, evs []Ev, record func(ssa.I
 		st  uint64
 	}
 	seenAt := map[atKey]bool{}
-	start := pstate{0, init}
-	ex.parent[start] = pstate{-1, 0}
+	ex.phis = condPhis(fn)
+	phiSlot := map[*ssa.Phi]int{}
+	for i, p := range ex.phis {
+		phiSlot[p] = i
+	}
+	// resolve a condition through the φ operands selected on this path
+	resolve := func(v ssa.Value, sel uint64) (ssa.Value, bool) {
+		flip := false
+		for i := 0; i < 8; i++ {
+			var pos bool
+			v, pos = normCond(v, true)
+			if !pos {
+				flip = !flip
+			}
+			phi, ok := v.(*ssa.Phi)
+			if !ok {
+				break
+			}
+			slot, tracked := phiSlot[phi]
+			if !tracked {
+				break
+			}
+			k := int(getSt(sel, slot))
+			if k == 0 || k > len(phi.Edges) {
+				break
+			}
+			v = phi.Edges[k-1]
+			if q, isPhi := v.(*ssa.Phi); isPhi && q.Block() == phi.Block() {
+				break // parallel φ of the same block: the operand is the previous iteration's value
+			}
+		}
+		return v, flip
+	}
+	// a φ whose operand is another tracked φ must be forgotten when that operand is recomputed
+	users := map[*ssa.Phi][]int{}
+	for i, p := range ex.phis {
+		for _, e := range p.Edges {
+			if q, ok := e.(*ssa.Phi); ok && q.Block() != p.Block() {
+				if _, tracked := phiSlot[q]; tracked {
+					users[q] = append(users[q], i)
+				}
+			}
+		}
+	}
+	start := pstate{0, init, 0}
+	ex.parent[start] = pstate{-1, 0, 0}
 	work := []pstate{start}
 	for len(work) > 0 {
 		cur := work[len(work)-1]
@@ -351,7 +419,25 @@ func explore(P *Prog, fn *ssa.Function, init uint64, evs []Ev, record func(ssa.I
 				}
 			}
 		}
+		var iff *ssa.If
+		feasible := [2]bool{true, true}
+		if len(b.Succs) == 2 && len(ex.phis) > 0 {
+			if x, ok := b.Instrs[len(b.Instrs)-1].(*ssa.If); ok {
+				if v, flip := resolve(x.Cond, cur.phi); v != x.Cond {
+					iff = x
+					if cb, isConst := constBool(v); isConst {
+						taken := cb != flip
+						feasible[0], feasible[1] = taken, !taken
+					} else {
+						condOverride[iff] = condRes{v, flip}
+					}
+				}
+			}
+		}
 		for si, succ := range b.Succs {
+			if len(b.Succs) == 2 && !feasible[si] {
+				continue
+			}
 			nst := st
 			for i, e := range evs {
 				o := getSt(nst, i)
@@ -360,14 +446,65 @@ func explore(P *Prog, fn *ssa.Function, init uint64, evs []Ev, record func(ssa.I
 					nst = setSt(nst, i, n)
 				}
 			}
-			nx := pstate{succ.Index, nst}
+			nphi := cur.phi
+			if len(ex.phis) > 0 {
+				idx := predIndex(succ, b, si)
+				for _, ins := range succ.Instrs {
+					phi, ok := ins.(*ssa.Phi)
+					if !ok {
+						break
+					}
+					for _, u := range users[phi] {
+						nphi = setSt(nphi, u, 0)
+					}
+				}
+				for _, ins := range succ.Instrs {
+					phi, ok := ins.(*ssa.Phi)
+					if !ok {
+						break
+					}
+					if slot, tracked := phiSlot[phi]; tracked && idx >= 0 && idx < 15 {
+						nphi = setSt(nphi, slot, uint8(idx+1))
+					}
+				}
+			}
+			nx := pstate{succ.Index, nst, nphi}
 			if _, ok := ex.parent[nx]; !ok {
 				ex.parent[nx] = cur
 				work = append(work, nx)
 			}
 		}
+		if iff != nil {
+			delete(condOverride, iff)
+		}
 	}
 	return ex
+}
+
+// condPhis: the boolean φs of fn whose value (possibly negated, possibly
+// through further φs) is tested by an If; at most 16 are tracked.
+func condPhis(fn *ssa.Function) []*ssa.Phi {
+	var out []*ssa.Phi
+	seen := map[*ssa.Phi]bool{}
+	var add func(v ssa.Value, depth int)
+	add = func(v ssa.Value, depth int) {
+		v, _ = normCond(v, true)
+		phi, ok := v.(*ssa.Phi)
+		if !ok || seen[phi] || depth > 4 || len(out) >= 16 || len(phi.Edges) > 14 {
+			return
+		}
+		seen[phi] = true
+		out = append(out, phi)
+		for _, e := range phi.Edges {
+			add(e, depth+1)
+		}
+	}
+	for _, b := range fn.Blocks {
+		if iff, ok := b.Instrs[len(b.Instrs)-1].(*ssa.If); ok {
+			add(iff.Cond, 0)
+		}
+	}
+	return out
 }
 
 // holdsVec decodes which events hold in a product state.
@@ -392,9 +529,8 @@ func (ex *Exploration) describe(st uint64) string {
 }
 
 // trace reconstructs one block path from the entry to (blk, st).
-func (ex *Exploration) trace(blk int, st uint64) string {
+func (ex *Exploration) trace(cur pstate) string {
 	var lines []string
-	cur := pstate{blk, st}
 	n := 0
 	for cur.blk >= 0 && n < 200 {
 		b := ex.fn.Blocks[cur.blk]
@@ -467,7 +603,7 @@ func (ex *Exploration) findTrace(blk int, st uint64, target ssa.Instruction) str
 		for _, ins := range ex.fn.Blocks[blk].Instrs {
 			if ins == target {
 				if cur == st {
-					return ex.trace(blk, ps.st)
+					return ex.trace(ps)
 				}
 				break
 			}
